@@ -171,7 +171,7 @@ func transportName(tcp bool) string {
 
 func init() {
 	register("C05", PropDef{
-		Bubble: true,
+		Bubble: false, // chosen per case
 		Cases: func(tier string) int {
 			if tier == "thorough" {
 				return 860 + 6000
@@ -180,12 +180,20 @@ func init() {
 			return 400
 		},
 		Run: func(t *testing.T, rng *rand.Rand, rec *sim.Rec, tier string, caseNo int) {
-			if caseNo%8 == 7 {
-				runC05E2E(t, rng, rec, tier, caseNo)
+			if caseNo%40 == 21 {
+				// real sockets: several clients behind one operating-system UDP listener
+				runC19Real(t, rng, rec, tier, caseNo/40)
 
 				return
 			}
-			runC05(t, rng, rec, tier, caseNo)
+			inBubble(t, func(t *testing.T) {
+				if caseNo%8 == 7 {
+					runC05E2E(t, rng, rec, tier, caseNo)
+
+					return
+				}
+				runC05(t, rng, rec, tier, caseNo)
+			})
 		},
 	})
 }
